@@ -278,8 +278,9 @@ func checkC07(e *core.Env) {
 		var bounds [][]int // field boundaries inside each encoding
 		for k := 0; k < 3; k++ {
 			target := 300
-			if k == 1 {
-				target = pick(r, 64<<10+1, 70000, 100000, 300000, 1<<20)
+			if k >= 1 {
+				// two large messages in a row, of different sizes and contents
+				target = pick(r, 32<<10+1, 64<<10+1, 70000, 100000, 300000, 1<<20) >> uint(k-1)
 			}
 			var enc []byte
 			var bs []int
